@@ -908,9 +908,16 @@ impl ProxyServer {
                     )
                 }
                 Err(e) => {
+                    // Error::Hex quotes the key value: never write it to the connection log
+                    let reason = match e {
+                        Error::Hex(_, hex_error) => {
+                            format!("the latched key is not a valid hex string: {}", hex_error)
+                        }
+                        other => other.to_string(),
+                    };
                     http_connection_context.log(
                         LoggerLevel::Error,
-                        format!("compute_signature failed with error: {}", e),
+                        format!("compute_signature failed with error: {}", reason),
                     );
                 }
             }
